@@ -186,3 +186,25 @@ Example lx_init_name_clash :
   linker_init_M 1%nat [(1%nat, mkSub (mkSpan SList [5; 6]) 0 0)] (Some (mkSpan SList [5])) = Raise DuplicateNameError /\
   linker_init_M 9%nat [(0%nat, mkSub (mkSpan SList [5; 6]) 1 0); (1%nat, mkSub (mkSpan SList [5; 6]) 0 2)] None = Ret (mkSpan SList [5; 6], 1, 2).
 Proof. repeat split. Qed.
+
+(* ---- kept finding convergence|submodel-id-underscore-shadows-linker: the linker has one check variable L0, bumped by 1.0 after
+        every iteration by its evaluate_t_after hook, and one static submodel (V0 = 1 at every pass).  Keyed 0 the period
+        never converges (L0 keeps moving): 'F' after 5 iterations.  Keyed '_' (us_id) the submodel's check values replace the
+        linker's own in get_check_values, and the period is declared solved at iteration 2 although L0 moved by 1.0 >= tol ---- *)
+Definition us_core : fcomp := mkComp (mkDesc [0%nat] [0%nat] 0 0) (mkState [[0%float; 0%float; 0%float]] U3 [-1; -1; -1] []).
+Definition us_sub : fcomp := mkComp (mkDesc [0%nat] [0%nat] 0 0) (mkState [[0%float; 0%float; 0%float]] U3 [-1; -1; -1] []).
+Definition us_state (key : sid) : flstate := mkL us_core [(key, us_sub)] [].
+Definition us_ss (key : sid) : subscripts := [(key, [(1%nat, mkPS [] (repeat [ASet 0 1%float] 5) [])])].
+Definition us_hs : lscripts := [(1%nat, mkLS [] [] (repeat [LAAffine 0 0 1%float 0 0 1%float] 5) [])].
+Lemma underscore_id_shadows_linker_refuted :
+  let o := mkOpts 0 5 tolf 0 false ERaise true in
+  let r_us := f_linker_solve_t (us_ss us_id) us_hs None o 1 (us_state us_id) in
+  let r_0 := f_linker_solve_t (us_ss 0%nat) us_hs None o 1 (us_state 0%nat) in
+  (* keyed '_': declared solved at iteration 2 ... *)
+  snd r_us = LRet true /\ iters (c_st (l_core (fst r_us))) = [-1; 2; -1] /\
+  (* ... although the linker's own check variable went from 1.0 (after iteration 1) to 2.0 (after iteration 2) *)
+  vals_of (c_st (l_core (fst r_us))) = [[0%float; 2%float; 0%float]] /\
+  PrimFloat.ltb (PrimFloat.abs (PrimFloat.sub 2%float 1%float)) tolf = false /\
+  (* keyed by any other id: not solved *)
+  snd r_0 = LRet false /\ status (c_st (l_core (fst r_0))) = [Unsolved; Failed; Unsolved] /\ iters (c_st (l_core (fst r_0))) = [-1; 5; -1].
+Proof. vm_compute. repeat split. Qed.
